@@ -319,13 +319,18 @@ class World:
             json.dump({"fam": fam, "pinst": ev["pinst"]}, f)
         return ev
 
-    def load(self, s, doc):
+    def load(self, s, doc, form="written"):
+        """form: the stored text as written, or the same JSON value with the members of every object sorted / reversed (what a
+        key-sorting serialiser or a jsonb column hands back)"""
         meta = json.load(open(os.path.join(self.store_dir, doc + ".meta")))
         fam = meta["fam"]
         cls = getattr(em(), FAMS[fam][0])
-        ev = {"op": "load", "s": s, "doc": doc}
+        ev = {"op": "load", "s": s, "doc": doc, "form": form}
         try:
             text = open(os.path.join(self.store_dir, doc + ".json")).read()
+            if form != "written":
+                from .docs import reorder
+                text = json.dumps(reorder(json.loads(text), form))
             m = cls.from_json(text)
             ev["out"] = "ok"
         except Exception as ex:
@@ -399,7 +404,7 @@ class World:
         elif op == "save":
             ev = self.save(a["s"])
         elif op == "load":
-            ev = self.load(a["s"], a["doc"])
+            ev = self.load(a["s"], a["doc"], a.get("form", "written"))
         elif op == "readdf":
             ev = self.readdf(a["d"])
         elif op == "scribble":
